@@ -90,12 +90,13 @@ func rsaTargets(f rsaFamily) {
 	}
 	register(&Target{Name: f.pkg + ".PrivateKey/" + f.variant, Cost: 1, Obs: obsKey,
 		New: func(c *Call) any {
-			c.Site(f.pkg+".NewPrivateKey", f.pkg+".NewPrivateKey", f.pkg+"."+f.valuesType+".P", f.pkg+"."+f.valuesType+".Q", f.pkg+"."+f.valuesType+".D",
-				f.pkg+".NewPublicKey", "secretdata.NewBytesFromData")
+			c.Site(f.pkg+".NewPublicKey", pubOps...)
 			pub, err := f.mkPub(c.In("modulus", n))
 			if !c.Check(err) {
 				return nil
 			}
+			c.Site(f.pkg+".NewPrivateKey", f.pkg+".NewPrivateKey", f.pkg+"."+f.valuesType+".P", f.pkg+"."+f.valuesType+".Q", f.pkg+"."+f.valuesType+".D",
+				"secretdata.NewBytesFromData")
 			k, err := f.mkPriv(pub, sd(c.In("P", p)), sd(c.In("Q", q)), sd(c.In("D", d)))
 			if !c.Check(err) {
 				return nil
@@ -173,11 +174,12 @@ func init() {
 			}}})
 		register(&Target{Name: pkg + ".PrivateKey/" + variant, Cost: cost, Obs: obsKey,
 			New: func(c *Call) any {
-				c.Site(pkg+".NewPrivateKeyFromPublicKey", pkg+".NewPrivateKeyFromPublicKey", pkg+".NewPublicKey", "secretdata.NewBytesFromData")
+				c.Site(pkg+".NewPublicKey", pkg+".NewPublicKey", pkg+".PublicKeyOpts."+field)
 				pub, err := mkPub(c.In(pubArg, pubRaw))
 				if !c.Check(err) {
 					return nil
 				}
+				c.Site(pkg+".NewPrivateKeyFromPublicKey", pkg+".NewPrivateKeyFromPublicKey", "secretdata.NewBytesFromData")
 				k, err := mkPriv(secretdata.NewBytesFromData(c.In("keyBytes", privRaw), tok), pub)
 				if !c.Check(err) {
 					return nil
@@ -277,8 +279,12 @@ func init() {
 		}
 		register(&Target{Name: "signature/compositemldsa.PublicKey/MLDSA65-Ed25519/TINK", Cost: 1, Obs: obsKey,
 			New: func(c *Call) any {
-				c.Site("signature/compositemldsa.NewPublicKey", "signature/mldsa.NewPublicKey", "signature/ed25519.NewPublicKey")
-				k, err := mkPub(c.In("mldsaKeyBytes", mlPubRaw), c.In("ed25519KeyBytes", edPubRaw))
+				c.Site("signature/mldsa.NewPublicKey", "signature/mldsa.NewPublicKey")
+				a := c.In("mldsaKeyBytes", mlPubRaw)
+				c.Site("signature/ed25519.NewPublicKey", "signature/ed25519.NewPublicKey")
+				b := c.In("ed25519KeyBytes", edPubRaw)
+				c.Site("signature/compositemldsa.NewPublicKey")
+				k, err := mkPub(a, b)
 				if !c.Check(err) {
 					return nil
 				}
@@ -296,8 +302,12 @@ func init() {
 			}})
 		register(&Target{Name: "signature/compositemldsa.PrivateKey/MLDSA65-Ed25519/TINK", Cost: 1, Obs: obsKey,
 			New: func(c *Call) any {
-				c.Site("signature/compositemldsa.NewPrivateKey", "signature/mldsa.NewPrivateKey", "signature/ed25519.NewPrivateKey", "secretdata.NewBytesFromData")
-				k, err := mkPriv(c.In("mldsaPrivateKeyBytes", mlPrivRaw), c.In("ed25519PrivateKeyBytes", edPrivRaw))
+				c.Site("signature/mldsa.NewPrivateKey", "signature/mldsa.NewPrivateKey", "secretdata.NewBytesFromData")
+				a := c.In("mldsaPrivateKeyBytes", mlPrivRaw)
+				c.Site("signature/ed25519.NewPrivateKey", "signature/ed25519.NewPrivateKey")
+				b := c.In("ed25519PrivateKeyBytes", edPrivRaw)
+				c.Site("signature/compositemldsa.NewPrivateKey")
+				k, err := mkPriv(a, b)
 				if !c.Check(err) {
 					return nil
 				}
